@@ -317,8 +317,8 @@ def plan(tier):
     parts = 8 if tier == 'quick' else 16
     specs = [{'kind': 'matrix', 'part': i, 'parts': parts} for i in range(parts)]
     k = 6 if tier == 'quick' else 16
-    specs += [{'kind': 'trees', 'n': 2500 if tier == 'quick' else 60000, 'k': i} for i in range(k)]
-    specs += [{'kind': 'aliases', 'n': 1500 if tier == 'quick' else 30000, 'k': i} for i in range(2 if tier == 'quick' else 8)]
+    specs += [{'kind': 'trees', 'n': 6000 if tier == 'quick' else 60000, 'k': i} for i in range(k)]
+    specs += [{'kind': 'aliases', 'n': 4000 if tier == 'quick' else 30000, 'k': i} for i in range(2 if tier == 'quick' else 8)]
     return specs
 
 
